@@ -10,6 +10,8 @@ FIRST_CAUGHT = {
     # round 2 (checks as strengthened after round 1)
     "C04-m4", "C05-m4", "C06-m3", "C07-m4", "C10-m4", "C11-m3", "C11-m4", "C12-m4", "C13-m3", "C13-m4", "C14-m3",
     "C15-m3", "C15-m4", "C16-m4",
+    # round 3 (checks as strengthened after round 2)
+    "C02-m5", "C05-m5", "C06-m5", "C08-m5", "C08-m6", "C09-m5", "C11-m6", "C13-m6", "C15-m6", "C16-m5", "C18-m6",
 }
 FIRST_NOTE = {
     "C06-m1": "caught once the position table had been extended (comparison chains)",
@@ -19,6 +21,11 @@ FIRST_NOTE = {
     "C16-m3": "missed by C16 (no multi-file programs), caught by C09",
     "C02-m1": "missed (a first alarm was a generator bug of the check, fixed)",
     "C02-m2": "missed (a first alarm was a generator bug of the check, fixed)",
+    "C01-m5": "missed by C01, caught by C02 (multi-target assignment is C02's statement)",
+    "C01-m6": "missed by C01, caught by C11",
+    "C09-m6": "missed by C09, caught by C14",
+    "C16-m6": "missed by C16, caught by C19",
+    "C19-m5": "missed by C19 (tsh and the library fail alike), C14 ran into a defect of its own harness - counted as missed",
 }
 
 final = {}
